@@ -16,6 +16,7 @@ CONSTANTS
   MaxOpen,     \* sessions opened per behaviour
   WithClose, WithFlushRPC,
   WithSendFail, \* BOOLEAN: messages whose response cannot be written (transport failure)
+  MultiOps,    \* BOOLEAN: requests of two operations, the first stamped with the session's own id, the second with any stamp
   EmitOn
 
 VARIABLES nmsg, nopen, hist, nextid
@@ -55,6 +56,11 @@ Stamps(s) ==
 
 OpsAlphabet(s) ==
   {[k |-> "ops", ops |-> << [o EXCEPT !.eid = st.eid, !.noeid = st.noeid] >>] : o \in Shapes(nextid), st \in Stamps(s)}
+  \cup (IF MultiOps
+        THEN {[k |-> "ops", ops |-> << [BaseOp(nextid, "ADD", "nh", "1") EXCEPT !.eid = sess[s].last],
+                                      [BaseOp(nextid + 1, "ADD", "nh", "2") EXCEPT !.eid = st.eid, !.noeid = st.noeid] >>] :
+                 st \in Stamps(s) \cup {[eid |-> NoId, noeid |-> TRUE]} \cup {[eid |-> i, noeid |-> FALSE] : i \in Ids}}
+        ELSE {})
 
 BadAlphabet == IF WithBadMsgs THEN {[k |-> "multi"], [k |-> "empty"]} ELSE {}
 
@@ -80,7 +86,7 @@ MCNext ==
   \/ /\ nmsg < MaxMsgs
      /\ \E s \in DOMAIN sess : \E m \in Msgs(s) : \E f \in (IF WithSendFail THEN BOOLEAN ELSE {FALSE}) :
           /\ MsgBegin(s, m, f) /\ H([a |-> "msg", s |-> s, m |-> m, sendfail |-> f])
-          /\ nextid' = IF m.k = "ops" THEN nextid + 1 ELSE nextid
+          /\ nextid' = IF m.k = "ops" THEN nextid + Len(m.ops) ELSE nextid
      /\ nmsg' = nmsg + 1 /\ UNCHANGED nopen
   \/ (OpDirect \/ OpAdd \/ OpAddEnd \/ OpDelete \/ OpRibErr \/ MsgEnd
         \/ \E e \in UNION Range(call.stack) : STry(e))
